@@ -160,7 +160,11 @@ C08(E) ==
        (~E.fo /\ (a.kind = "noop" \/ ~E.res.success)) => NZRows(E) = {}>>,
      <<"C08", "fully_observable_rows_equal_state",
        E.fo => \A h \in Hosts : E.obs[h] = E.postRow[h]>>,
-     <<"C08", "aux_row_is_flags", E.aux = AuxRow(E.res)>> >>
+     <<"C08", "aux_row_is_flags", E.aux = AuxRow(E.res)>>,
+     \* C09: an observation row uses the layout of a state row - whatever it shows sits in the column
+     \* that holds the same feature of the resulting state
+     <<"C09", "observation_rows_laid_out_as_state_rows",
+       \A h \in NZRows(E) : \A c \in NZCols(E.obs[h]) : E.obs[h][c] = E.postRow[h][c]>> >>
 
 ---------------------------------------------------------------------------
 (* Agreement with the reference model: informative only (DRIFT), never a   *)
